@@ -1,4 +1,4 @@
-#!/bin/sh
+#!/bin/bash
 # usage: tools_seed.sh <seed-id> <property> <out-dir-of-agent> <pkg-dir-for-demo> "<go test pkgs for existing suite>"
 # Confirms a seeded change (demo fails with / passes without, existing tests unaffected) on scratch
 # copies of /repo and runs the property's check against it. Scratch copies are removed at the end.
@@ -22,7 +22,8 @@ if [ ! -s $BASEKEY ]; then
 fi
 cp $BASEKEY /tmp/seed_base_tests.log
 (cd $B/utils && go test -count=1 $PKGS 2>&1 | grep -- "^--- FAIL\|^    --- FAIL\|^FAIL\|^ok" | grep -v "$FLAKY" | sed 's/ ([0-9.]*s)//; s/\t[0-9.]*s$//' | sort > /tmp/seed_mut_tests.log)
-if diff -q /tmp/seed_base_tests.log /tmp/seed_mut_tests.log >/dev/null; then SAME=true; else SAME=false; fi
+# "unchanged" = no test that passes on the untouched copy fails on the changed one (FAIL lines of the changed copy are a subset)
+if [ -z "$(grep FAIL /tmp/seed_mut_tests.log | sort | comm -13 <(grep FAIL /tmp/seed_base_tests.log | sort) -)" ]; then SAME=true; else SAME=false; fi
 GOVC_REPO=$B /verif/bin/govc -prop $PROP -noreplay > /verif/seeded/$ID/check.log 2>&1; CK=$?
 rm -rf $A $B
 echo "seed=$ID prop=$PROP demo_without_rc=$RW demo_with_rc=$RC existing_tests_same=$SAME check_rc=$CK"
